@@ -13,7 +13,7 @@ prints the final counters and the number of cells still allocated.
 Operation tokens (fields separated by `:`; cat = l|c|r|x for T&, const T&, T&&, const T&&;
 tag = i|d|s|m|p; form = l|c|r|m):
   df:k  ca:k:src:cat  cv:k:cat:tag:code  aa:a:b:cat  av:a:cat:tag:code  rs:a  sw:a:b:free
-  ds:a  pk:a:tag:code  vc:a:tag:form  pc:a|n:tag:const
+  ds:a  pk:a:tag:code  pr:a:tag:code  vc:a:tag:form  pc:a|n:tag:const
 -/
 namespace BFL.DriverAnyBox
 open BFL BFL.Proto BFL.AnyBox
@@ -47,6 +47,7 @@ def parseOp (tok : String) : Option Op :=
   | ["sw", a, b, f] => do pure (.swap (← a.toNat?) (← b.toNat?) (← flagOf? f))
   | ["ds", a] => do pure (.destroy (← a.toNat?))
   | ["pk", a, t, v] => do pure (.poke (← a.toNat?) ⟨← tagOf? t, ← v.toInt?⟩)
+  | ["pr", a, t, v] => do pure (.pokeRef (← a.toNat?) ⟨← tagOf? t, ← v.toInt?⟩)
   | ["vc", a, t, f] => do pure (.castVal (← a.toNat?) (← tagOf? t) (← formOf? f))
   | ["pc", a, t, c] => do
       let t ← tagOf? t
